@@ -246,7 +246,18 @@ _ACC_MEMO = {}
 
 
 def inv_problems(t):
-    return [('Inv/' + b.split(':')[0], 'holds', b) for b in rt.inv(t)]
+    """violated clauses of rt.inv; the axis is reported in `observed`, not in the clause name (one root cause on
+    both axes = one group)"""
+    out, seen = [], set()
+    for b in rt.inv(t):
+        name = b.split(':')[0]
+        for pre in ('obs-', 'samp-'):
+            if name.startswith(pre):
+                name = name[len(pre):]
+        if name not in seen:
+            seen.add(name)
+            out.append(('Inv/' + name, 'holds', b))
+    return out
 
 
 def accessor_problems(t, v=None, key=None):
@@ -374,6 +385,8 @@ class _Walk:
                 self.add(clause, '%s:%s' % (a['op'], _classify_op(t, a, clause, former2, 'receiver')), p[1], p[2], path)
         for r in o.results:
             self.judge_state(r, former2, path, (t, a))
+        if o.result is None or inv_problems(o.result) or (o.inplace is False and inv_problems(c)):
+            return None, former      # reported above; an incoherent table is not a start for further history
         return o.result, former2
 
     def start(self, t):
@@ -468,6 +481,8 @@ def small_states(tier):
     plus 2x3 / 3x2 / 3x3 / stress matrices with metadata kinds and ID alphabets"""
     for dm in rt.matrices(0, 0, shapes=[(1, 1), (1, 2), (2, 1), (2, 2)]):
         for lay, z in _layout_zero_variants(dm):
+            if tier == 'quick' and dm.size == 4 and z == 'z1' and lay != 'csr':
+                continue        # quick: 'one stored zero' on 2x2 only in the csr layout (none/all in every layout)
             yield {'A': dm.tolist(), 'layout': lay, 'zeros': z}
     yield from rich_states(tier)
 
@@ -496,9 +511,9 @@ def history_states(tier, depth):
     """start states of the exhaustive histories"""
     mats = [np.array([[1., 0.], [2., 1.]]), np.array([[0., 2., 1.], [3., 0., 0.]])]
     if depth == 2:
-        mats += [np.array([[0., 0.], [0., 1.]]), np.array([[2.], [0.], [1.]])]
+        mats += [np.array([[2.], [0.], [1.]])]
         if tier == 'thorough':
-            mats += [np.array([[1., -1.], [0.5, 0.]]), np.array([[1., 2.], [3., 4.]])]
+            mats += [np.array([[0., 0.], [0., 1.]]), np.array([[1., -1.], [0.5, 0.]]), np.array([[1., 2.], [3., 4.]])]
     mds = [('none', 'none'), ('text', 'tax')]
     for dm in mats:
         for lay, z in _layout_zero_variants(dm, zeros=('nz', 'zall')):
@@ -542,7 +557,8 @@ def run(rep):
     if 'bounded' in rep.only:
         rt.install_extracted_kernels()
         q = rep.tier == 'quick'
-        sdesc = ('every matrix over {0,1,2} up to 2x2 x layouts (csr, csr-unsorted, csc) x stored zeros (none/one/all); '
+        sdesc = ('every matrix over {0,1,2} up to 2x2 x layouts (csr, csr-unsorted, csc) x stored zeros (none/one/all%s); '
+                 % ('; quick: "one" on 2x2 only in csr' if q else '') +
                  '2x3, 3x2, 3x3 and value-stress matrices x layouts x stored zeros x ID alphabets x metadata kinds')
         rt.run_scope(rep, 'start', 'constructor: ' + sdesc, small_states(rep.tier), run_start_case, exhaustive=True)
         rt.run_scope(rep, 'single', 'one operation, full argument alphabet (ops_util.alphabet level=full, ~150-230 '
@@ -551,7 +567,7 @@ def run(rep):
         rt.run_scope(rep, 'depth2', 'all histories of length 2 over the reduced alphabet (ops_util.alphabet '
                      'level=reduced, ~45-56 choices per state) from 2x2 / 2x3 / 3x1%s start tables x layouts x stored '
                      'zeros (none/all) x metadata (none / text+taxonomy); revisited (raw state, remaining depth) pairs '
-                     'are not re-expanded' % ('' if q else ' / negative / dense'),
+                     'are not re-expanded' % ('' if q else ' / single-entry / negative / dense'),
                      history_cases(rep.tier, 2, 'reduced'), run_history_case, chunk=1, exhaustive=True)
         if not q:
             rt.run_scope(rep, 'depth3', 'all histories of length 3 over the reduced alphabet from 2x2 / 2x3 start '
